@@ -1,1 +1,52 @@
-fn main() { mvh::hello(); }
+use mvh::runner::{run_check, RunCfg, Tier};
+
+fn main() {
+    let args: Vec<String> = std::env::args().collect();
+    if args.len() < 2 {
+        eprintln!("usage: check <ID> [--tier quick|thorough] [--seed N] [--replay FILE] [--threads N]");
+        std::process::exit(2);
+    }
+    let id = args[1].clone();
+    let mut tier = match std::env::var("VERIF_TIER").ok().as_deref() {
+        Some("thorough") => Tier::Thorough,
+        _ => Tier::Quick,
+    };
+    let mut seed: u64 = std::env::var("VERIF_SEED").ok().and_then(|s| s.parse().ok()).unwrap_or(1);
+    let mut replay = None;
+    let mut threads = std::thread::available_parallelism().map(|n| n.get()).unwrap_or(8).min(16);
+    let mut i = 2;
+    while i < args.len() {
+        match args[i].as_str() {
+            "--tier" => {
+                i += 1;
+                tier = if args[i] == "thorough" { Tier::Thorough } else { Tier::Quick };
+            }
+            "--seed" => {
+                i += 1;
+                seed = args[i].parse().unwrap_or(1);
+            }
+            "--replay" => {
+                i += 1;
+                replay = Some(args[i].clone());
+            }
+            "--threads" => {
+                i += 1;
+                threads = args[i].parse().unwrap_or(threads);
+            }
+            _ => {}
+        }
+        i += 1;
+    }
+    let verif_dir = std::env::var("MVH_VERIF_DIR").unwrap_or_else(|_| "/verif".to_string());
+    let cfg = RunCfg { tier, seed, threads, verif_dir, replay };
+    if id == "selftest" {
+        std::process::exit(mvh::selftest::run());
+    }
+    for c in mvh::checks::all() {
+        if c.id() == id {
+            std::process::exit(run_check(c.as_ref(), &cfg));
+        }
+    }
+    eprintln!("unknown check {}", id);
+    std::process::exit(2);
+}
